@@ -4,4 +4,5 @@ INVARIANT EvenlyFilled
 INVARIANT SameAsRun
 INVARIANT ZipTuples
 INVARIANT RequestAccounts
+INVARIANT Repeatable
 CHECK_DEADLOCK FALSE
